@@ -28,7 +28,9 @@ def run(ctx):
     body = f.need(B + "::null_move")
     ctx.check(body.locals[1]["ty"].startswith("&") and not body.locals[1]["ty"].startswith("&mut"), "receiver-shared",
               "null_move takes the board mutably") if False else None
-    paths = sym.SymExec(f, body).run()
+    from .common import read_as_part_of
+    own = read_as_part_of(f, body.key, stop=lambda n: n in W)
+    paths = sym.SymExec(f, body, inline=lambda n: True if n in own else None).run()
     ctx.saw("%s: %d paths" % (body.key, len(paths)))
     where = loc(body)
     ctx.rule("refusal")
